@@ -51,6 +51,10 @@ def register(m):
     m("C03", "b4-wrapper-cached-by-display-name-regression", "symplyphysics/core/operations/symbolic.py",
       "        cls._sanitize(assumptions, cls)\n        obj = SymSymbol.__xnew__(cls, display_name, **assumptions)\n        obj.factor = expr\n",
       "        obj = super().__new__(cls, display_name, **assumptions)\n", "I4", note="the genuine defect repaired in 6afdd9a")
+    m("C05", "b4-float-exponent-ok", "symplyphysics/core/dimensions/collect_quantity.py", "        dim_exp = nsimplify(exp_factor, rational=True) if exp_factor.is_Float else exp_factor", "        dim_exp = nsimplify(exp_factor, rational=True)", "SILENT")
+    m("C05", "b4-float-exponent-regression", "symplyphysics/core/dimensions/collect_quantity.py", "        dim_exp = nsimplify(exp_factor, rational=True) if exp_factor.is_Float else exp_factor", "        dim_exp = exp_factor", "S6",
+      note="the genuine defect repaired in 42bd8dd")
+    m("C06", "b4-float-exponent-regression-c06", "symplyphysics/core/dimensions/collect_expression.py", "    dim_exp = nsimplify(exp_expr, rational=True) if exp_expr.is_Float else exp_expr", "    dim_exp = exp_expr", "S6")
     # C09 N1: factories hand out fresh systems
     m("C09", "b2-transform-returns-argument", CSYS,
       ") -> CoordinateSystem:\n    new_coord_system = from_system.coord_system.create_new(",
